@@ -7,7 +7,11 @@ class OpContract:
 
     def __init__(self, name, props, file, func, call, params, spec, cells=None, inv="True", requires=None,
                  raises=(), loops=None, sources=("source",), notes="", witness=None, spec_args=None,
-                 scheduler=None, known=None, elem="val"):
+                 scheduler=None, known=None, elem="val", families=None):
+        #: handler families created per element (inner subscriptions of merge/switch/...):
+        #: name -> dict(spec=(next, error, completed method names), inv=<extra invariant over the member's
+        #: closure locals and the ghost id `k`>, id=<spec expression giving the member's id right after creation>)
+        self.families = families or {}
         self.name = name
         self.props = props
         self.file = file
